@@ -12,6 +12,7 @@ import (
 
 func checkC17(c *Ctx) {
 	c.explainf("C17 decides: every write route funnels through HashSet (the bucket map is written only by HashSet / HashDelete / CloneFrom / MakeHash); in HashSet the field type check dominates every mutation and, on an error other than the not-a-symbol sentinel, the routine returns that error before any mutation; in the checker an unknown field name and a type mismatch (apart from the empty-slice exception) reach an error return; MakeHash type-checks the whole record of a declared struct and returns the error; writing through a pointer copies a record only under the type-identity test; re-binding a typed variable stores only under an acceptance test and otherwise ends in an error. It does not decide that the type comparison is right for every field type, nor redefinition semantics.")
+	c.checkDefinitionByName("C17-IDENT")
 	Map := c.mustField("C17-WM", "SexpHash", "Map")
 	KeyOrder := c.field("SexpHash", "KeyOrder")
 	NumKeys := c.field("SexpHash", "NumKeys")
@@ -570,6 +571,64 @@ func guardedByBetween(blk, from *ssa.BasicBlock, pred func(cond ssa.Value) (bool
 		if target == blk {
 			return true
 		}
+	}
+	return false
+}
+
+// checkDefinitionByName: C17-IDENT. "Instances keep the definition that was in
+// force when they were created": the definition an instance was built with is
+// held by the instance (GoStructFactory). A routine that answers "what type is
+// this instance" or "which definition does this constructor build" by looking
+// the type's NAME up in the package-level registry answers with whatever was
+// registered last under that name, by any scope or any interpreter of the
+// process. The rule looks, in the routine that reports an instance's type and
+// in the routine that builds an instance, for a read of the package-level
+// registry keyed by the type name.
+func (c *Ctx) checkDefinitionByName(rule string) {
+	reg := c.SZygo.Var("GoStructRegistry")
+	lookup := c.fn("GoStructRegistryType.Lookup")
+	if reg == nil {
+		c.undecided(rule, "GoStructRegistry", "anchor", token.NoPos, "package-level registry not found")
+		return
+	}
+	for _, name := range []string{"SexpHash.Type", "MakeHash"} {
+		f := c.mustFn(rule, name)
+		if f == nil {
+			continue
+		}
+		var at token.Pos
+		eachInstr(f, func(b *ssa.BasicBlock, i int, in ssa.Instruction) {
+			switch x := in.(type) {
+			case *ssa.Lookup:
+				// GoStructRegistry.Registry[name]
+				if derivesFromGlobal(x.X, reg, 0) && !at.IsValid() {
+					at = x.Pos()
+				}
+			case *ssa.Call:
+				if lookup != nil && x.Call.StaticCallee() == lookup && len(x.Call.Args) > 0 && derivesFromGlobal(x.Call.Args[0], reg, 0) && !at.IsValid() {
+					at = x.Pos()
+				}
+			}
+		})
+		c.check(!at.IsValid(), rule, name, "definition taken from the instance, not from the name", orPos(at, f.Pos()),
+			"the routine does not consult the package-level registry by type name",
+			"the definition is looked up by the type's name in the package-level registry: after a redeclaration (in this interpreter, in a nested scope, or in another interpreter of the process) instances of the old definition pass as the new type, fields declared with the old type reject their own instances, and a constructor builds instances of a definition the interpreter never declared")
+	}
+}
+
+func derivesFromGlobal(v ssa.Value, g *ssa.Global, depth int) bool {
+	if depth > 5 {
+		return false
+	}
+	switch x := v.(type) {
+	case *ssa.Global:
+		return x == g
+	case *ssa.UnOp:
+		return derivesFromGlobal(x.X, g, depth+1)
+	case *ssa.FieldAddr:
+		return derivesFromGlobal(x.X, g, depth+1)
+	case *ssa.Field:
+		return derivesFromGlobal(x.X, g, depth+1)
 	}
 	return false
 }
